@@ -648,7 +648,9 @@ def model_check(ck: Check, pid: str, tier: str) -> None:
         # the implementation-shaped runner: the repaired algorithm satisfies the invariants for an in-memory-like and a
         # Redis-like consumer; the pinned algorithm does not (that counter-example is the defect the trace checks found)
         for cfg2, invs in (("MC_Runner_repaired_inmem.cfg", "all"), ("MC_Runner_repaired_inmem_nolimit.cfg", "all"),
-                           ("MC_Runner_repaired_rabbit.cfg", "all"), ("MC_Runner_repaired_big.cfg", "all"),
+                           ("MC_Runner_repaired_rabbit.cfg", "all"), ("MC_Runner_repaired_big.cfg", "all"), ("MC_Runner_repaired_late.cfg", "all"),
+                           ("MC_Runner_repaired_2q.cfg", "all"), ("MC_Runner_repaired_2q_tl1.cfg", "all"), ("MC_Runner_repaired_3q.cfg", "all"),
+                           ("MC_Runner_repaired_2q_rabbit.cfg", "all"),
                            ("MC_Runner_redis_other.cfg", "all but AtReturn"), ("MC_Runner_redis_other_ml.cfg", "all but AtReturn")):
             r2 = tlc.run_tlc("Runner", cfg2, timeout=900)
             if not r2.ok:
@@ -657,7 +659,8 @@ def model_check(ck: Check, pid: str, tier: str) -> None:
         # expected counter-examples: the pinned algorithm (defects repaired in /repo), and the Redis-like consumer whose
         # finish() returns only its local queue (known finding redis-stop-leaves-in-flight)
         for cfg2, inv in (("MC_Runner_pinned_inmem.cfg", "StartedBound"), ("MC_Runner_pinned_redis.cfg", "AtReturn"),
-                          ("MC_Runner_redis_atreturn.cfg", "AtReturn")):
+                          ("MC_Runner_redis_atreturn.cfg", "AtReturn"), ("MC_Runner_pinned_2q.cfg", "StartedBound"),
+                          ("MC_Runner_beforeslot_2q.cfg", "StartedBound")):
             r3 = tlc.run_tlc("Runner", cfg2, timeout=900)
             if r3.ok:
                 raise tlc.MachineryError(f"Runner {cfg2} was expected to violate {inv}: the model no longer shows the defect it documents")
